@@ -1841,8 +1841,9 @@ def run(ctx: Context):
         mg = idx.func(MAXG)
         G, SI = first_positional_params(mg)[:2]
 
-        def empty_ok(o, n, lab, _G=G):
-            """`return {}` / `return None` is allowed under `graph == []` / `not graph` / `len(graph) == 0`."""
+        def empty_ok(o, n, lab, _G=G, _S=SI):
+            """`return {}` is allowed when the graph (or the list of share indices to read back) is empty:
+            `graph == []` / `not graph` / `len(graph) == 0`, same for the share indices."""
             v = o.ast.value
             if not ((isinstance(v, ast.Dict) and not v.keys) or (isinstance(v, ast.Call) and call_name(v) == "dict"
                                                                   and not v.args and not v.keywords)):
@@ -1851,7 +1852,8 @@ def run(ctx: Context):
             if not f:
                 return False
             op, l, rr = f
-            return (op == "false" and l == _G) or (op == "==" and {l, rr} in ({"[]", _G}, {"0", "len(%s)" % _G}))
+            return any((op == "false" and l == x) or (op == "==" and {l, rr} in ({"[]", x}, {"0", "len(%s)" % x}))
+                       for x in (_G, _S))
         ek = ek_freshness_rule(r, mg, "placement matching", net_param=G, empty_result_ok=empty_ok)
         # the read-back decides matched / unmatched from the residual graph (not from the flow network)
         mnorm = FlowNorm(mg)
